@@ -237,6 +237,7 @@ func swapNames(m *ref.Node, a, b string) *ref.Node {
 type entry struct {
 	count int
 	len   float64
+	nolen int // occurrences (branches in series counted once) lacking a length
 }
 
 func dyadicAll(ms []*ref.Node) bool {
@@ -268,6 +269,9 @@ func expectedTable(trees []*ref.Node) (*ref.Taxa, map[string]*entry, map[string]
 			}
 			e.count++
 			e.len += s.Len
+			if !s.AllLen {
+				e.nolen++
+			}
 			trivial[k] = s.Trivial
 		}
 	}
@@ -311,6 +315,9 @@ func compareConsensus(m *ref.Node, n int, cut float64, tx *ref.Taxa, table map[s
 			if e.count != n {
 				return fmt.Errorf("harness: tip split counted %d times in %d trees", e.count, n)
 			}
+			if !s.AllLen && e.nolen == 0 {
+				return fmt.Errorf("tip branch %v has no length in the consensus, every input tree gives it one (mean %v)", tx.KeyNames(k), e.len/float64(n))
+			}
 			if want := e.len / float64(n); !ref.Close(s.Len, want, exact) {
 				return fmt.Errorf("tip branch %v has length %v, mean over the trees is %v", tx.KeyNames(k), s.Len, want)
 			}
@@ -328,6 +335,9 @@ func compareConsensus(m *ref.Node, n int, cut float64, tx *ref.Taxa, table map[s
 		wantSup := float64(e.count) / float64(n)
 		if len(s.Sups) != 1 || s.Sups[0] != wantSup {
 			return fmt.Errorf("split %v: support %v, expected frequency %v", tx.KeyNames(k), s.Sups, wantSup)
+		}
+		if !s.AllLen && e.nolen == 0 {
+			return fmt.Errorf("split %v has no length in the consensus, every tree containing it gives it one (mean %v)", tx.KeyNames(k), e.len/float64(e.count))
 		}
 		if want := e.len / float64(e.count); !ref.Close(s.Len, want, exact) {
 			return fmt.Errorf("split %v: length %v, mean over the %d trees containing it is %v", tx.KeyNames(k), s.Len, e.count, want)
